@@ -224,6 +224,8 @@ def lib_args(stg, spec, ts, ts_ext, fs, lo, hi, opts, ref):
         path = arr.tolist() if form == 'list' else arr
     else:
         path = float(sp['f_start']) if form == 'scalar' else int(round(sp['f_start']))
+        if form == 'scalar' and sp.get('np64'):
+            path = np.float64(path)               # a numpy double IS a Python float: the scalar a caller reads out of an array
     form = st.get('form', 'callable')
     if form == 'callable':
         tprof = build_lib_tprof(stg, st)
@@ -234,12 +236,16 @@ def lib_args(stg, spec, ts, ts_ext, fs, lo, hi, opts, ref):
         tprof = arr.tolist() if form == 'list' else arr
     else:
         tprof = float(st['level']) if form == 'scalar' else int(st['level'])
+        if form == 'scalar' and st.get('np64'):
+            tprof = np.float64(tprof)
     fprof = build_lib_fprof(stg, spec['fprof'])
     b = spec['bp']
     if b['kind'] == 'none':
         bp = None
     elif b['kind'] == 'scalar':
         bp = b['level']
+        if b.get('np64') and isinstance(bp, float):
+            bp = np.float64(bp)
     elif b['kind'] == 'constant':
         bp = stg.constant_bp_profile(b['level'])
     elif b['kind'] == 'cos':
